@@ -164,7 +164,11 @@ def annotate(net, rng):
     """Ordinary networkx attributes stored on the public graph (positions for drawing, labels, lengths):
     they say nothing about origins, destinations or links."""
     G_ = net.G
+    links_ = [d_["link"] for _u, _v, d_ in G_.edges(data=True) if "link" in d_]
     for i_, n_ in enumerate(list(G_.nodes)):
+        if links_ and rng.random() < 0.3:
+            # an annotation of the caller's own that HOLDS an element of the network (the link a ramp controller measures)
+            G_.nodes[n_]["measured_link"] = rng.choice(links_)
         if rng.random() < 0.7:
             G_.nodes[n_]["pos"] = (float(i_), 0.0)
         if rng.random() < 0.3:
